@@ -48,28 +48,47 @@ Fixpoint drop_clean (l : list sk) : list sk :=
   | [] => []
   end.
 
-(* STORE reaches the flag table with one statement per flag, each over all messages: a run of flag statements is
-   compared as the set of messages it touches *)
-Fixpoint take_flags (l : list sk) : list N * list sk :=
-  match l with
-  | KStmt (StSetFlags id _) :: t => let '(ids, r) := take_flags t in (id :: ids, r)
-  | _ => ([], l)
-  end.
+(* Some runs of steps have no fixed order in the implementation and are compared as sets (sorted, without
+   duplicates): the flag statements of STORE (one statement per flag, each over all messages), the store writes of
+   applyMessagesCreated (parallel goroutines), the purge statements and store deletes of removeState / start-up
+   (SELECT without ORDER BY over a table keyed by random uuids). *)
+Section Runs.
+  Variable key : sk -> option N.
+  Variable mk : N -> sk.
+  Fixpoint take_run (l : list sk) : list N * list sk :=
+    match l with
+    | x :: t => match key x with
+                | Some id => let '(ids, r) := take_run t in (id :: ids, r)
+                | None => ([], l)
+                end
+    | [] => ([], [])
+    end.
+  Fixpoint norm_runs (fuel : nat) (l : list sk) : list sk :=
+    match fuel with
+    | O => l
+    | S f =>
+        match l with
+        | [] => []
+        | x :: t => match key x with
+                    | Some _ => let '(ids, r) := take_run l in map mk (ndedup_sorted (nsort ids)) ++ norm_runs f r
+                    | None => x :: norm_runs f t
+                    end
+        end
+    end.
+End Runs.
 
-Fixpoint norm_flags (fuel : nat) (l : list sk) : list sk :=
-  match fuel with
-  | O => l
-  | S f =>
-      match l with
-      | [] => []
-      | KStmt (StSetFlags _ _) :: _ =>
-          let '(ids, r) := take_flags l in
-          map (fun i => KStmt (StSetFlags i 0)) (ndedup_sorted (nsort ids)) ++ norm_flags f r
-      | x :: t => x :: norm_flags f t
-      end
-  end.
+Definition key_flags (x : sk) : option N := match x with KStmt (StSetFlags id _) => Some id | _ => None end.
+Definition key_set (x : sk) : option N := match x with KSet id => Some id | _ => None end.
+Definition key_del (x : sk) : option N := match x with KDel id => Some id | _ => None end.
+Definition key_purge (x : sk) : option N := match x with KStmt (StDeleteMsg id) => Some id | _ => None end.
 
-Definition skeleton (l : list cs_step) : list sk := let k := drop_clean (sk_of l) in norm_flags (length k) k.
+Definition skeleton (l : list cs_step) : list sk :=
+  let k := drop_clean (sk_of l) in
+  let n := length k in
+  norm_runs key_purge (fun i => KStmt (StDeleteMsg i)) n
+    (norm_runs key_del KDel n
+       (norm_runs key_set KSet n
+          (norm_runs key_flags (fun i => KStmt (StSetFlags i 0)) n k))).
 
 Definition stmt_eqb (a b : cs_stmt) : bool :=
   match a, b with
@@ -103,9 +122,9 @@ Definition pre_b (op : cs_op) (m : cs_m) : bool :=
   match op with
   | OpAppend _ _ id _ | OpAppendRecovered _ _ id _ => negb (cs_listed (m_db m) id)
   | OpCopy _ items | OpMove _ _ items => forallb (fun p => cs_has_msg (m_db m) (snd p)) items
-  | OpConnCreate msgs rows =>
-      forallb (fun p => negb (cs_listed (m_db m) (fst p))) msgs &&
-      forallb (fun r => cs_has_msg (m_db m) (row_msg r) || nmem (row_msg r) (map fst msgs)) rows
+  | OpConnCreate chunks rows =>
+      forallb (fun p => negb (cs_listed (m_db m) (fst p))) (concat chunks) &&
+      forallb (fun r => cs_has_msg (m_db m) (row_msg r) || nmem (row_msg r) (map fst (concat chunks))) rows
   | OpConnUpdate _ new _ _ _ => negb (cs_listed (m_db m) new)
   | OpSessionEnd ids => forallb (fun id => negb (cs_listed (m_db m) id)) ids
   | _ => true
